@@ -44,6 +44,22 @@ def _apply(v, repo):
         if src is None:
             with open(os.path.join(repo, rel), encoding="utf-8") as fh:
                 src = fh.read()
+        if "rename" in e:
+            import ast
+
+            a, b = e["rename"]
+            tree = ast.parse(src)
+            if any(isinstance(n, ast.Name) and n.id == b for n in ast.walk(tree)):
+                return None
+            pos = sorted({(n.lineno, n.col_offset) for n in ast.walk(tree) if isinstance(n, ast.Name) and n.id == a}, reverse=True)
+            if not pos:
+                return None
+            lines = src.split("\n")
+            for ln, col in pos:
+                raw = lines[ln - 1].encode("utf-8")
+                lines[ln - 1] = (raw[:col] + b.encode() + raw[col + len(a.encode()):]).decode("utf-8")
+            overrides[rel] = "\n".join(lines)
+            continue
         if src.count(e["old"]) != 1:
             return None
         overrides[rel] = src.replace(e["old"], e["new"])
